@@ -11,10 +11,13 @@ CONSTANTS MaxNodes,     \* trees with 1..MaxNodes nodes
           RichAlpha,    \* gap texts at most one gap may have (the one worth splicing)
           InsAlpha,     \* replacement texts
           AllowZero,    \* zero-width nodes in the instance space
-          AllowNoSep    \* containers whose children are not separated by own tokens
+          AllowNoSep,   \* containers whose children are not separated by own tokens
+          AllowWrap,    \* at most one node with own grouping parentheses / a trailing comment (derived extent)
+          WarmModes     \* which nodes have their derived extent cached before the edit
 
-VARIABLES n, par, kind, sep, inst, gaps, phase, res
-vars == <<n, par, kind, sep, inst, gaps, phase, res>>
+VARIABLES n, par, kind, sep, wrap, inst, gaps, phase, res,
+          cache      \* explicit cache state: node -> cached derived extent (only cached nodes are in the domain)
+vars == <<n, par, kind, sep, wrap, inst, gaps, phase, res, cache>>
 
 LeafKinds  == {"tok", "brk"} \cup (IF AllowZero THEN {"bare"} ELSE {})
 InnerKinds == {"brk", "bare", "pre", "post"}
@@ -25,7 +28,13 @@ Splice(gi, p, q, i) ==
   /\ phase = "inst"
   /\ phase' = "done"
   /\ res' = Result(inst, gaps, gi, p, q, i)
-  /\ UNCHANGED <<n, par, kind, sep, inst, gaps>>
+  \* the cache was warmed (some set of nodes, by reading their derived extent) before the edit;
+  \* the offset walk flushes exactly the nodes it visits
+  /\ \E mode \in WarmModes :
+       LET r == Result(inst, gaps, gi, p, q, i)
+           W == WarmSet(inst, mode, r.self)
+       IN cache' = [k \in (W \ r.vis) |-> r.ext0[k]]
+  /\ UNCHANGED <<n, par, kind, sep, wrap, inst, gaps>>
 
 Spots == {s \in UNION {{<<gi, p, q>> : p \in Pts(gaps[gi]), q \in Pts(gaps[gi])} : gi \in 1..Len(gaps)} :
             Le(s[2], s[3])}
@@ -55,10 +64,14 @@ Init ==
                  \A k \in 1..n : f[k] \in (IF IsLeaf([n |-> n, par |-> par], k) THEN LeafKinds ELSE InnerKinds)}
   /\ sep \in {f \in [1..n -> BOOLEAN] :
                  \A k \in 1..n : IF Cardinality(KidSet([n |-> n, par |-> par], k)) < 2 THEN f[k] = FALSE ELSE (f[k] \/ AllowNoSep)}
-  /\ inst = MkInst([n |-> n, par |-> par, kind |-> kind, sep |-> sep])
+  /\ wrap \in {f \in [1..n -> {"none", "pars", "trail"}] :
+                 /\ f[1] = "none"
+                 /\ Cardinality({k \in 1..n : f[k] # "none"}) <= (IF AllowWrap THEN 1 ELSE 0)}
+  /\ inst = MkInst([n |-> n, par |-> par, kind |-> kind, sep |-> sep, wrap |-> wrap])
   /\ gaps \in {G \in GapSets(Len(inst.A) - 1) : OnGrid(Scan(inst, G), MaxLines, MaxCols)}
   /\ phase = "inst"
   /\ res = NoRes
+  /\ cache = <<>>
 
 Next == InsertSL \/ InsertML \/ DeleteSL \/ DeleteML \/ ReplaceSL \/ ReplaceML
 Spec == Init /\ [][Next]_vars
@@ -99,6 +112,16 @@ SelfContains == (Done /\ ~ZeroTouch) => Contains(res.pos0[res.self], res.P, res.
 (* every node whose span has to change is reached by the walk, early breaks  *)
 (* included (its caches are flushed there): serves C02                       *)
 ChangedVisited == (Done /\ Regular) => {k \in 1..n : res.want[k] # res.pos0[k]} \subseteq res.vis
+
+(* Cache.  `cache` holds the derived extents that are still cached after the  *)
+(* edit (warmed before it, not flushed by the walk).  No cached extent may      *)
+(* differ from the recomputed one: every warmed node whose derived extent -     *)
+(* including its enclosing parentheses / trailing comment - intersects or       *)
+(* follows the spot has to be flushed.                                          *)
+CacheFresh == (Done /\ Regular) => \A k \in DOMAIN cache : cache[k] = res.extWant[k]
+(* the same, stated as what the edit must invalidate                            *)
+MustFlush  == {k \in 1..n : res.extWant[k] # res.ext0[k]}
+FlushesAllMoved == (Done /\ Regular) => MustFlush \subseteq res.vis
 
 (* Named deviation ZeroWidthAtOffsetPoint.  With a zero-width span exactly   *)
 (* on the offset point the rule table follows the docstring diagrams of       *)
